@@ -4,7 +4,7 @@ C16 — small-step model of the threads of `pywbem.WBEMListener`.
 mirrors pywbem/_listener.py: WBEMListener.start, WBEMListener.stop,
   WBEMListener._stop_listener_threads, WBEMListener._stop_indication_delivery,
   WBEMListener._callback_run, WBEMListener._deliver_indication_to_callbacks,
-  WBEMListener._handle_indication, ListenerRequestHandler.do_POST (queue part only),
+  WBEMListener._handle_indication, WBEMListener.add_callback, ListenerRequestHandler.do_POST (queue part only),
   StoppableThread.stop/stopped, ExceptionHandlingThread.run/join
 
 Threads: the *main* thread (user program calling start()/stop() in any order
@@ -29,9 +29,21 @@ old protocol only).
 current code (callback thread keeps a local reference; stop() stops and joins
 the thread and clears the reference last).
 
-Not modelled (see manifest): sockets/ports, the HTTPS twin of the server,
-`_stop_indication_delivery(immediate=True)` (start() failure path), the
-`_queue_full` log flag, time (a `get` may time out whenever the queue is empty).
+Two server objects are modelled: the HTTP server (`srv`, `accepting`) and the
+HTTPS server (`srv2`, `accepting2`), each present iff its port is configured
+(`Cfg.http`, `Cfg.https`); start() creates them one after the other,
+`_stop_listener_threads` stops them one after the other, and each
+`server_close()` joins only the handler threads of its own server.  A sender
+chooses the port per request (`snd j` = HTTP, `sndTls j` = HTTPS).
+The `_queue_full` flag and its two edge-triggered log warnings are modelled
+(`qfull`, ghost `fullLog`).
+
+A start() whose server creation fails (`failStart`, decided by the environment)
+is modelled: the listener is taken down like in stop() and the documented
+ListenerError is raised (code after the third `fix:` commit).
+
+Not modelled (see manifest): sockets/ports, TLS, time (a `get` may time out whenever
+the queue is empty).
 Third-party hypotheses built into the step relation: `queue.Queue` is a
 linearizable FIFO with non-blocking `put` raising `Full` iff `maxsize>0 ∧
 qsize≥maxsize`; `Event`/`Thread.join` have their documented semantics;
@@ -50,6 +62,8 @@ structure Cfg where
   proto : Protocol := .fixed
   maxQ  : Nat := 0          -- max_ind_queue_size; 0 = unbounded
   ncb   : Nat := 1          -- number of registered callbacks
+  http  : Bool := true      -- http_port configured
+  https : Bool := false     -- https_port configured
   deriving DecidableEq, Repr
 
 /-- indication = (sender index, sequence number of that sender) -/
@@ -60,9 +74,12 @@ inductive MainPc where
   | idle        -- between API calls
   | sMkq        -- about to run queue.Queue(maxsize)        (asserts already passed)
   | sThr        -- about to run CallbackThread.start()
-  | sSrv        -- about to run make_server(); …; ServerThread.start()
+  | sSrv        -- about to run make_server(); …; ServerThread.start()   (HTTP)
+  | sSrv2       -- about to run make_server(); wrap_socket; ServerThread.start()   (HTTPS)
   | tShutdown   -- about to run _http_server.shutdown()
-  | tClose      -- about to run _http_server.server_close() (joins handler threads)
+  | tClose      -- about to run _http_server.server_close() (joins the HTTP handler threads)
+  | tShutdown2  -- about to run _https_server.shutdown()
+  | tClose2     -- about to run _https_server.server_close() (joins the HTTPS handler threads)
   | tPoll       -- about to run _ind_queue.empty()
   | tSetEv      -- about to run _callback_thread.stop()     (Event.set)
   | tJoin       -- about to run _callback_thread.join()
@@ -92,17 +109,22 @@ inductive HPc where
 structure Sender where
   next : Nat := 0
   pc   : HPc := .idle
+  tls  : Bool := false      -- the request in flight came in over the HTTPS port
   deriving DecidableEq, Repr, Inhabited
 
 structure Sys where
   main      : MainPc := .idle
   up        : Bool := false            -- user view: start() was called and stop() not since
-  errs      : List PyExc := []         -- exceptions raised by start()/stop() so far
+  errs      : List PyExc := []         -- exceptions raised by start()/stop() so far, other than the documented
+                                       -- ListenerError of a start() whose server creation failed (`startFails`)
   qref      : Bool := false            -- self._ind_queue is not None
   thrRef    : Bool := false            -- self._callback_thread is not None
   stopEv    : Bool := false            -- _callback_thread.stop_event
   srv       : Bool := false            -- self._http_server is not None
-  accepting : Bool := false            -- the server accepts connections
+  accepting : Bool := false            -- the HTTP server accepts connections
+  srv2      : Bool := false            -- self._https_server is not None
+  accepting2 : Bool := false           -- the HTTPS server accepts connections
+  qfull     : Bool := false            -- self._queue_full
   queue     : List Ind := []           -- content of the current queue object
   cb        : CbPc := .off
   senders   : List Sender := []
@@ -113,6 +135,8 @@ structure Sys where
   acked     : List Ind := []           -- success responses sent
   refused   : List Ind := []           -- CIM error responses sent (queue full)
   ignored   : List Ind := []           -- acknowledged although not enqueued
+  fullLog   : List Bool := []          -- the queue-full warnings logged: true = "now full", false = "no longer full"
+  startFails : Nat := 0                -- start() calls that failed with their documented ListenerError
   deriving DecidableEq, Repr
 
 def init (n : Nat) : Sys := { senders := List.replicate n {} }
@@ -122,7 +146,10 @@ inductive Label where
   | stop                -- main: call stop()
   | main                -- main: next step inside start()/stop()
   | cb (raise : Bool)   -- callback thread: next step (raise: the callback being left raises)
-  | snd (j : Nat)       -- sender j / its handler thread: next step
+  | snd (j : Nat)       -- sender j / its handler thread: next step (a new request goes to the HTTP port)
+  | sndTls (j : Nat)    -- sender j: send the next request to the HTTPS port
+  | failStart           -- environment: the server creation start() is about to do fails (port in use, address
+                        -- not resolvable, bad certificate/key file)
   deriving DecidableEq, Repr, Inhabited
 
 /-! ### main thread -/
@@ -146,14 +173,34 @@ def stepStart (s : Sys) : Option Sys :=
     else some { s with up := true, main := .sMkq }
   else none
 
+/-- mirrors _stop_listener_threads: the second block `if self._https_server:` -/
+def stopHttps (c : Cfg) (s : Sys) : Sys :=
+  if s.srv2 then { s with main := .tShutdown2 } else afterServers c s
+
 /-- mirrors stop(): _stop_listener_threads `if self._http_server:` -/
 def stepStop (c : Cfg) (s : Sys) : Option Sys :=
   if s.main = .idle then
     if s.srv then some { s with up := false, main := .tShutdown }
-    else some (afterServers c { s with up := false })
+    else some (stopHttps c { s with up := false })
+  else none
+
+/-- mirrors start(): `except Exception:` … `self._stop_listener_threads(); self._stop_indication_delivery(); raise`
+    when make_server() / the certificate loading of the server about to be created fails: the listener is taken
+    down exactly like in stop() (a server object created but not started is closed on the way), then the
+    ListenerPortError / ListenerStartError / ListenerCertificateError is raised -/
+def stepFail (c : Cfg) (s : Sys) : Option Sys :=
+  if s.main = .sSrv ∨ s.main = .sSrv2 then
+    if s.srv then some { s with up := false, startFails := s.startFails + 1, main := .tShutdown }
+    else some (stopHttps c { s with up := false, startFails := s.startFails + 1 })
   else none
 
 def allIdle (l : List Sender) : Bool := l.all (fun sd => sd.pc == .idle)
+
+/-- no handler thread of the HTTP (`tls = false`) / HTTPS (`tls = true`) server is alive -/
+def idleOn (tls : Bool) (l : List Sender) : Bool := l.all (fun sd => sd.pc == .idle || sd.tls != tls)
+
+/-- mirrors start(): after the callback thread, `if self._http_port:` … `if self._https_port:` -/
+def startServers (c : Cfg) : MainPc := if c.http then .sSrv else if c.https then .sSrv2 else .idle
 
 /-- mirrors ExceptionHandlingThread.join + the statements after it in _stop_indication_delivery -/
 def joinStep (c : Cfg) (s : Sys) (exc : Bool) : Sys :=
@@ -175,10 +222,13 @@ def stepMain (c : Cfg) (s : Sys) : Option Sys :=
   match s.main with
   | .idle => none
   | .sMkq => some { s with qref := true, queue := [], main := .sThr }
-  | .sThr => some { s with thrRef := true, stopEv := false, cb := .run, main := .sSrv }
-  | .sSrv => some { s with srv := true, accepting := true, main := .idle }
+  | .sThr => some { s with thrRef := true, stopEv := false, cb := .run, main := startServers c }
+  | .sSrv => some { s with srv := true, accepting := true, main := if c.https then .sSrv2 else .idle }
+  | .sSrv2 => some { s with srv2 := true, accepting2 := true, main := .idle }
   | .tShutdown => some { s with accepting := false, main := .tClose }
-  | .tClose => if allIdle s.senders then some (afterServers c { s with srv := false }) else none
+  | .tClose => if idleOn false s.senders then some (stopHttps c { s with srv := false }) else none
+  | .tShutdown2 => some { s with accepting2 := false, main := .tClose2 }
+  | .tClose2 => if idleOn true s.senders then some (afterServers c { s with srv2 := false }) else none
   | .tPoll => some (pollStep c s)
   | .tSetEv => some { s with stopEv := true, main := .tJoin }
   | .tJoin => match s.cb with
@@ -225,20 +275,29 @@ def setPc (s : Sys) (j : Nat) (sd : Sender) (pc : HPc) : List Sender :=
   s.senders.set j { sd with pc := pc }
 
 def finishReq (s : Sys) (j : Nat) (sd : Sender) : List Sender :=
-  s.senders.set j { next := sd.next + 1, pc := .idle }
+  s.senders.set j { next := sd.next + 1, pc := .idle, tls := sd.tls }
+
+/-- mirrors _handle_indication: the edge-triggered log state after a refused put -/
+def logFull (s : Sys) : List Bool := if s.qfull then s.fullLog else s.fullLog ++ [true]
+
+/-- mirrors _handle_indication: the edge-triggered log state after a successful put -/
+def logNotFull (s : Sys) : List Bool := if s.qfull then s.fullLog ++ [false] else s.fullLog
+
+/-- a request arrives over the port `tls` and gets a handler thread; mirrors the first lines of
+    _handle_indication (`if self._ind_queue is None: … return`) -/
+def acceptReq (s : Sys) (j : Nat) (sd : Sender) (tls : Bool) : Sys :=
+  if s.qref then { s with senders := s.senders.set j { sd with pc := .put, tls := tls } }
+  else { s with senders := s.senders.set j { sd with pc := .respIgn, tls := tls },
+                ignored := s.ignored ++ [(j, sd.next)] }
 
 /-- mirrors do_POST/_handle_indication for one sender -/
 def stepSndAt (c : Cfg) (s : Sys) (j : Nat) (sd : Sender) : Option Sys :=
   match sd.pc with
-  | .idle =>
-    if s.accepting then
-      if s.qref then some { s with senders := setPc s j sd .put }
-      else some { s with senders := setPc s j sd .respIgn, ignored := s.ignored ++ [(j, sd.next)] }
-    else none
+  | .idle => if s.accepting then some (acceptReq s j sd false) else none
   | .put =>
-    if isFull c s then some { s with senders := setPc s j sd .respErr }
+    if isFull c s then some { s with senders := setPc s j sd .respErr, qfull := true, fullLog := logFull s }
     else some { s with queue := s.queue ++ [(j, sd.next)], enq := s.enq ++ [(j, sd.next)],
-                       senders := setPc s j sd .respOk }
+                       senders := setPc s j sd .respOk, qfull := false, fullLog := logNotFull s }
   | .respOk => some { s with acked := s.acked ++ [(j, sd.next)], senders := finishReq s j sd }
   | .respIgn => some { s with acked := s.acked ++ [(j, sd.next)], senders := finishReq s j sd }
   | .respErr => some { s with refused := s.refused ++ [(j, sd.next)], senders := finishReq s j sd }
@@ -247,6 +306,12 @@ def stepSnd (c : Cfg) (s : Sys) (j : Nat) : Option Sys :=
   match s.senders[j]? with
   | none => none
   | some sd => stepSndAt c s j sd
+
+/-- sender j sends its next request to the HTTPS port -/
+def stepSndTls (s : Sys) (j : Nat) : Option Sys :=
+  match s.senders[j]? with
+  | none => none
+  | some sd => if sd.pc = .idle ∧ s.accepting2 = true then some (acceptReq s j sd true) else none
 
 /-! ### the system -/
 
@@ -257,6 +322,8 @@ def step (c : Cfg) (l : Label) (s : Sys) : Option Sys :=
   | .main => stepMain c s
   | .cb _ => stepCb c s
   | .snd j => stepSnd c s j
+  | .sndTls j => stepSndTls s j
+  | .failStart => stepFail c s
 
 /-- states reachable from the initial state with `n` senders under any schedule -/
 inductive Reachable (c : Cfg) (n : Nat) : Sys → Prop where
@@ -283,6 +350,19 @@ def calls (k : Nat) (x : Ind) : List (Nat × Ind) := (List.range k).map (fun i =
 
 /-- the complete invocation log for a list of indications and `n` callbacks -/
 def expand (n : Nat) (xs : List Ind) : List (Nat × Ind) := xs.flatMap (calls n)
+
+/-- mirrors add_callback: `if callback not in self._callbacks: self._callbacks.append(callback)`;
+    callbacks are identified up to `==` (a natural number per equality class) -/
+def addCallback (cbs : List Nat) (f : Nat) : List Nat := if cbs.contains f then cbs else cbs ++ [f]
+
+/-- `self._callbacks` after the calls `add_callback(f)` for `f` in `regs`, in that order -/
+def registered (regs : List Nat) : List Nat := regs.foldl addCallback []
+
+/-- successive entries differ (the queue-full warnings are edge-triggered) -/
+def alternating : List Bool → Bool
+  | [] => true
+  | [_] => true
+  | x :: y :: r => x != y && alternating (y :: r)
 
 /-- the indications handed to callback `k`, in the order of the calls -/
 def seenBy (k : Nat) (log : List (Nat × Ind)) : List Ind := (log.filter (fun e => e.1 == k)).map (·.2)
